@@ -92,10 +92,29 @@ def standin_sweeps(tier, seed):
             g = [asdict(r) for r in s[sl]]
             if not _close(g, want_s[sl]):
                 fails.append(dict(args=dict(ctx, slice=repr(sl)), failed="slice", clause="slicing differs from slicing the list of assignments"))
+        # operators: a + b zips the two sweeps as they are (whatever their own kind), a * b is their product
+        try:
+            t = _gen_sweep(rng, rng.randrange(0, 3), names)
+        except ValueError:
+            t = None
+        if t is not None:
+            wt = [{str(k): v for k, v in d.items()} for d in _points_spec(t)]
+            cases += 1
+            try:
+                zs = [asdict(r) for r in (s + t)]
+                wz = [dict(want_s[i], **wt[i]) for i in range(min(len(want_s), len(wt)))]
+                if not _close(zs, wz):
+                    fails.append(dict(args=dict(a=repr(s), b=repr(t)), failed="add", clause=f"a + b is not the zip of a's and b's assignments: {len(zs)} points, expected {len(wz)}"))
+                ps_ = [asdict(r) for r in (s * t)]
+                wp = [dict(x, **y) for x in want_s for y in wt]
+                if not _close(ps_, wp):
+                    fails.append(dict(args=dict(a=repr(s), b=repr(t)), failed="mul", clause="a * b is not the product of a's and b's assignments (a-major)"))
+            except ValueError:
+                pass
         if len(fails) >= 4:
             break
     return dict(function="cirq-core/cirq/study/sweeps.py[len, iteration, indexing, slicing]", case="sweeps",
-                bound="seeded nested sweeps (depth <= 3, fan-out <= 3) of Points/Linspace/Product/Zip/ZipLongest/Concat; every index in [-n-1, n], 5 slices",
+                bound="seeded nested sweeps (depth <= 3, fan-out <= 3) of Points/Linspace/Product/Zip/ZipLongest/Concat; every index in [-n-1, n], 5 slices; a + b and a * b of two such sweeps",
                 cases=cases, distinct=cases, failures=len(fails), exhaustive=False, _fails=fails[:4])
 standin_sweeps.prop = "C10"
 
@@ -140,11 +159,57 @@ def standin_resolution(tier, seed):
             if not np.allclose(u, want, atol=1e-8):
                 fails.append(dict(args=dict(gate=repr(g), values=vals), failed="resolve-vs-substitute",
                                   clause="resolving parameters changes more than the symbols: unitary differs from the gate built with the substituted numbers"))
+            # parameter names: exactly the symbols written into the gate, also through a sub-circuit operation; is_parameterized agrees
+            syms_ = {str(x) for e_ in (e1, e2) for x in (e_.free_symbols if isinstance(e_, sympy.Basic) else ())}
+            import re as _re
+            used = set(_re.findall(r"Symbol\('(\w+)'\)", repr(g))) & syms_
+            names_ = cirq.parameter_names(g)
+            if names_ != used or cirq.is_parameterized(g) != bool(used):
+                fails.append(dict(args=dict(gate=repr(g)), failed="parameter-names", clause=f"parameter_names = {sorted(names_)}, is_parameterized = {cirq.is_parameterized(g)}; the gate was built from the symbols {sorted(used)}"))
+            else:
+                qs_ = cirq.LineQubit.range(cirq.num_qubits(g))
+                co = cirq.CircuitOperation(cirq.FrozenCircuit(g.on(*qs_)))
+                if cirq.parameter_names(co) != used:
+                    fails.append(dict(args=dict(gate=repr(g)), failed="parameter-names", clause=f"a sub-circuit operation around the gate reports parameter names {sorted(cirq.parameter_names(co))}, expected {sorted(used)}"))
+                elif used and not np.allclose(cirq.unitary(cirq.Circuit(cirq.resolve_parameters(co, res))), want, atol=1e-8):
+                    fails.append(dict(args=dict(gate=repr(g), values=vals), failed="resolve-through-subcircuit", clause="resolving a sub-circuit operation around the gate differs from substituting the numbers"))
             # unrelated symbols stay; composition of resolvers
             partial = cirq.resolve_parameters(g, cirq.ParamResolver({"a": vals["a"]}))
             full = cirq.resolve_parameters(partial, cirq.ParamResolver({"b": vals["b"], "c": vals["c"]}))
             if not cirq.is_parameterized(full) and not np.allclose(cirq.unitary(full), want, atol=1e-8):
                 fails.append(dict(args=dict(gate=repr(g), values=vals), failed="compositional", clause="resolving a then (b, c) differs from resolving all at once"))
+        # linear combinations of gates / operations: resolving equals substituting term by term and ADDING (terms may become equal)
+        for G in (cirq.X, cirq.Z, cirq.Y):
+            ea, eb = rng.choice([a, b, a + b, 2 * a]), rng.choice([a, b, c, a * b])
+            ca, cb = rng.choice([2, 0.5, -1, 1j]), rng.choice([3, 1, -0.5])
+            lc = ca * G ** ea + cb * G ** eb
+            cases += 1
+            for pt in ({"a": 1.0, "b": 1.0, "c": 1.0}, vals):
+                sub_ = lambda x: float(sympy.sympify(x).subs({a: pt["a"], b: pt["b"], c: pt["c"]}))
+                want_m = ca * cirq.unitary(G ** sub_(ea)) + cb * cirq.unitary(G ** sub_(eb))
+                try:
+                    rl = cirq.resolve_parameters(lc, pt)
+                    if len(rl) == 0:
+                        if not np.allclose(want_m, 0, atol=1e-8):
+                            fails.append(dict(args=dict(combination=repr(lc), values=pt), failed="linear-combination-resolve", clause="resolving made every term vanish although the substituted sum is not zero"))
+                        continue
+                    got_m = rl.matrix()
+                except Exception as ex:
+                    fails.append(dict(args=dict(combination=repr(lc), values=pt), failed="linear-combination-resolve-raised", clause=f"{ex!r}"))
+                    continue
+                if not np.allclose(got_m, want_m, atol=1e-8):
+                    fails.append(dict(args=dict(combination=repr(lc), values=pt), failed="linear-combination-resolve", clause="resolving a linear combination of gates differs from substituting term by term and adding"))
+            q_ = cirq.LineQubit(0)
+            lo = cirq.LinearCombinationOfOperations({(G ** ea).on(q_): ca}) + cirq.LinearCombinationOfOperations({(G ** eb).on(q_): cb})
+            pt = {"a": 1.0, "b": 1.0, "c": 1.0}
+            sub_ = lambda x: float(sympy.sympify(x).subs({a: 1.0, b: 1.0, c: 1.0}))
+            want_o = ca * cirq.unitary(G ** sub_(ea)) + cb * cirq.unitary(G ** sub_(eb))
+            try:
+                ro = cirq.resolve_parameters(lo, pt)
+                if len(ro) and not np.allclose(ro.matrix(), want_o, atol=1e-8):
+                    fails.append(dict(args=dict(combination=repr(lo), values=pt), failed="linear-combination-resolve", clause="resolving a linear combination of operations differs from substituting term by term and adding"))
+            except Exception:
+                pass
         # sweeps: simulate_sweep == per-point simulation, incl. SWAPs and entangling prefix (prefix reuse)
         circ = cirq.Circuit(cirq.H(q[0]), cirq.CNOT(q[0], q[1]), cirq.X(q[2]) ** 0.3, cirq.Y(q[1]) ** e1, cirq.SWAP(q[0], q[1]), cirq.CZ(q[1], q[2]) ** e2,
                             cirq.SWAP(q[1], q[2]), cirq.rz(e1)(q[0]))
